@@ -161,11 +161,11 @@ Lemma star_cons_inv a c s : matches (Star a) (c :: s) ->
   exists s1 s2, s = s1 ++ s2 /\ matches a (c :: s1) /\ matches (Star a) s2.
 Proof.
   intros H. remember (Star a) as r eqn:Er. remember (c :: s) as w eqn:Ew.
-  revert c s Ew. induction H as [| | | | | |a0 s1 s2 H1 _ H2 IH2]; intros c s Ew; try discriminate.
+  revert c s Ew. induction H as [| | | | | |a0 s1 s2 H1 _ H2 IH2]; intros c0 t0 Ew; try discriminate.
   injection Er as ->.
   destruct s1 as [|x s1'].
-  - simpl in Ew. apply (IH2 eq_refl c s Ew).
-  - simpl in Ew. injection Ew as -> ->. exists s1', s2. auto.
+  - simpl in Ew. apply (IH2 eq_refl c0 t0 Ew).
+  - simpl in Ew. injection Ew as E1 E2. subst x t0. exists s1', s2. auto.
 Qed.
 
 Lemma star_one a s : matches a s -> matches (Star a) s.
@@ -173,7 +173,7 @@ Proof. intros H. rewrite <- (app_nil_r s). apply MStarS; [exact H | apply MStar0
 Lemma star_app a s1 s2 : matches (Star a) s1 -> matches (Star a) s2 -> matches (Star a) (s1 ++ s2).
 Proof.
   intros H. remember (Star a) as r eqn:Er. revert s2.
-  induction H as [| | | | | |a0 t1 t2 H1 _ H2 IH2]; intros s2 K; try discriminate.
+  induction H as [| | | | | |a0 t1 t2 H1 _ H2 IH2]; intros u2 K; try discriminate.
   - exact K.
   - injection Er as ->. rewrite <- app_assoc. apply MStarS; [exact H1 | apply IH2; [reflexivity | exact K]].
 Qed.
@@ -268,7 +268,7 @@ Qed.
 
 Lemma deriv_iff c r : forall s, matches (deriv c r) s <-> matches r (c :: s).
 Proof.
-  induction r as [| |cs|a IHa b IHb|a IHa b IHb|a IHa]; intros s; simpl.
+  induction r as [| |cs|a IHa b IHb|a IHa b IHb|a IHa]; intros s; cbn [deriv].
   - split; intros H; exfalso; eapply empty_inv; eauto.
   - split; intros H; [exfalso; eapply empty_inv; eauto | apply eps_inv in H; discriminate].
   - rewrite chr_inv. destruct (cs_mem c cs) eqn:E.
